@@ -146,7 +146,7 @@ def version_trees(root):
             if sep and ts.isdigit() and model.accepts_name(name):
                 rel = os.path.relpath(d, base)
                 out[("//%s:%s" % ("" if rel == "." else rel, name), int(ts))] = trees.snapshot(p)
-            elif n.endswith(".task") or n == "archive-tmp":
+            elif n.endswith(".task") or n.startswith("archive-tmp."):
                 continue
             else:
                 stack.append(p)
@@ -286,8 +286,9 @@ def _run(case, src, dst, aux):
         want = trees.subtree(src_before, reldir)
         if got_trees[key] != want:
             v.append(("tree_differs", "%s@%d: %s" % (key[0], key[1], trees.diff(want, got_trees[key]))))
-    if os.path.exists(os.path.join(target, "cond-out", "archive-tmp")):
-        v.append(("staging_left_behind", "cond-out/archive-tmp still exists after a successful restore"))
+    left = [n for n in os.listdir(os.path.join(target, "cond-out")) if n.startswith("archive-tmp")]
+    if left:
+        v.append(("staging_left_behind", "cond-out/%s still exists after a successful restore" % left[0]))
     by_task = {}
     for s_ in sel:
         by_task[s_[0]] = by_task.get(s_[0], 0) + 1
